@@ -107,12 +107,22 @@ qb_hdb_handle_create(struct qb_hdb *hdb, int32_t instance_size,
 	 * (just 0 is concerned per specification of random), the PRNG may be
 	 * broken -> the value is unspecified, subject of stack allocation.
 	 */
-	for (i = 0; i < 200; i++) {
-		check = random();
+	check = entry->check;
+	if (check <= 0) {
+		for (i = 0; i < 200; i++) {
+			check = random();
 
-		if (check > 0) {
-			break;  /* covers also check == UINT32_MAX */
+			if (check > 0) {
+				break;  /* covers also check == UINT32_MAX */
+			}
 		}
+	} else {
+		/*
+		 * The slot has been used before: count on from the check
+		 * value of its last object, so that a stale copy of any
+		 * earlier handle of this slot does not match again.
+		 */
+		check = (check == INT32_MAX) ? 1 : check + 1;
 	}
 
 	memset(instance, 0, instance_size);
@@ -191,7 +201,10 @@ qb_hdb_handle_put(struct qb_hdb * hdb, qb_handle_t handle_in)
 			hdb->destructor(entry->instance);
 		}
 		free(entry->instance);
-		memset(entry, 0, sizeof(struct qb_hdb_handle));
+		/* the check value stays: the next object of this slot
+		 * continues from it */
+		entry->instance = NULL;
+		entry->state = QB_HDB_HANDLE_STATE_EMPTY;
 	}
 	return (0);
 }
